@@ -28,7 +28,7 @@ def one_run(emd, variant, x, nens, nproc, mode, level, seed, schedule, tdir, cap
               max_imfs=(1 if variant == 'complete_ensemble_sift' else cap))
     rec = {'variant': variant, 'nens': nens, 'nproc': nproc, 'mode': mode, 'level': level, 'seed': seed,
            'scripted': int(schedule is not None), 'schedule': schedule or {}, 'raised': 0, 'ids': [], 'neg_ok': [], 'nonzero': [],
-           'mean_ok': 0, 'zero_equal': 0, 'npids': 0}
+           'mean_ok': 0, 'zero_equal': 0, 'npids': 0, 'uncorrelated': 1}
     X2 = x[:, None]
     with NoiseTrace(emd, tdir) as T:
         np.random.seed(seed)
@@ -70,6 +70,13 @@ def one_run(emd, variant, x, nens, nproc, mode, level, seed, schedule, tdir, cap
             neg_ok.append(int(len(calls) == 1))
         members.append(m)
     rec['ids'], rec['neg_ok'], rec['nonzero'] = ids, neg_ok, nonzero
+    # independent realisations are (nearly) uncorrelated: |r| between two independent 96-sample noises is ~0.1 (0.6 is 6 sigma)
+    noises = [np.array(sorted(byjob[j], key=lambda e: e['call'])[0]['x']) - X2[:, 0] for j in sorted(byjob)]
+    rec['uncorrelated'] = 1
+    if level > 0 and len(noises) > 1 and all(np.std(q) > 0 for q in noises):
+        cc = np.corrcoef(np.array(noises))
+        rec['max_abs_corr'] = float(np.max(np.abs(cc - np.eye(len(noises)))))
+        rec['uncorrelated'] = int(rec['max_abs_corr'] < 0.6)
     rec['npids'] = len(set(e['pid'] for e in ev))
     try:
         ncol = res.shape[1]
@@ -134,7 +141,7 @@ def run():
     grid = []
     rng = np.random.RandomState(ctx.seed + 1)
     full = [(ne, npr) for ne in range(1, 9) for npr in range(1, 9)]
-    pick = full if not ctx.quick else [full[i] for i in rng.choice(len(full), 20, replace=False)] + [(8, 4), (4, 2), (8, 8)]
+    pick = full if not ctx.quick else [full[i] for i in rng.choice(len(full), 20, replace=False)] + [(8, 4), (4, 2), (8, 8), (8, 1), (6, 1), (7, 2)]
     for k, (ne, npr) in enumerate(pick):
         for variant in ('ensemble_sift', 'complete_ensemble_sift'):
             for mode in ('single', 'flip'):
